@@ -45,6 +45,7 @@ type Exec struct {
 	dpos int
 	dec  []int // decisions taken on this path
 	alts [][]int
+	violated bool // a violation was recorded on this path (its negation was then assumed)
 	nobj int
 	cur  ssa.Instruction
 	steps int
@@ -352,6 +353,10 @@ func (ex *Exec) callFunc(fr *Frame, fn *ssa.Function, args []Value, caps []Value
 	}
 	if fn.Name() == "init" && fn.Signature.Recv() == nil && len(args) == 0 {
 		return nil // dependency initializers are run lazily
+	}
+	if strings.HasPrefix(fn.Name(), "file_") && strings.HasSuffix(fn.Name(), "_proto_init") && len(args) == 0 {
+		ex.H.noteStub("protobuf descriptor registration (generated file_*_proto_init) skipped")
+		return nil
 	}
 	if fn.Blocks == nil {
 		// generic catch-alls by package
